@@ -623,6 +623,12 @@ def pair_menu():
         ("bid-precur", [("bid", "precur", "stop", ["z"], None)]),
         ("done-precur", [("done", "precur", ["x"])]),
         ("put-renter", [("put", "renter", 2, "w")]),
+        # multi-field and goal verbs
+        ("putf", [("putf", "enter", [("a", 1), ("b", 2)], "s"), ("go", "f3", [("cmpf", "a", "s", "==", 1, None, False), E1])]),
+        ("copyf", [("copyf", "recur", ["a", "b"], "s", ["d", "c"], "t"), ("go", "f3", [("cmpf", "c", "t", "==", 2, None, False), E1])]),
+        ("incf", [("incf", "recur", "b", "s", 1), ("go", "f3", [("cmpf", "b", "s", ">=", 4, None, False)])]),
+        ("set", [("set", "enter", "g.x", 3), ("go", "f3", [("cmpi", "v", "<", "g.x", None, False), E1])]),
+        ("setfrom", [("setfrom", "exit", "g.y", "v")]),
         ("inc-rexit", [("inc", "rexit", "c", 1)]),
     ]
 
@@ -665,7 +671,8 @@ def fam_pairs(first_variants=(None, "f2")):
                         if first:
                             fm["first"] = first
                         yield ("pairs/%s@%d+%s@%d/first-%s" % (na, pa, nb, pb, first),
-                               dict(tick=0.125, inits=list(ENV_INITS) + [("v", 0), ("c", 0), ("w", 0)], framers=[fm] + extra),
+                               dict(tick=0.125, inits=list(ENV_INITS) + [("v", 0), ("c", 0), ("w", 0), ("s", {"a": 0, "b": 0}), ("t", {"c": 0, "d": 0}),
+                                                                ("g.x", 0), ("g.y", 0)], framers=[fm] + extra),
                                dict(kind="pairs"))
 
 
